@@ -138,8 +138,12 @@ def gen_instance(rng, iid, family='random', nmax_geos=6):
   p = {'n_test': n_test, 'iroas': iroas, 'n_pretest_max': npm,
        'n_designs': rng.choice([1, 1, 2, 3, 5, 50]),
        'sig_level': rng.choice([0.9, 0.9, 0.8]), 'power_level': rng.choice([0.8, 0.8, 0.9]),
+       'low_levels': rng.random() < 0.1,
        'min_corr': rng.choice([0.8, 0.8, 0.9]), 'rho_max': rng.choice([0.995, 0.995, 0.95, 0.9]),
        'flevel': rng.choice([0.9, 0.9, 0.95])}
+  if p.pop('low_levels'):
+    # the documented domain of both levels is (0, 1): below one half the t quantile is negative
+    p['sig_level'], p['power_level'] = rng.choice([(0.4, 0.8), (0.3, 0.9), (0.6, 0.3), (0.45, 0.7)])
   heavy = family in ('constraints', 'degenerate')
   pr = (lambda x: rng.random() < (min(0.9, 1.6 * x) if heavy else x))
   tr = cr = (0, 0)
@@ -196,6 +200,14 @@ def gen_instance(rng, iid, family='random', nmax_geos=6):
         g, d = rng.randint(1, n), rng.randint(0, n_dates - 1)
         if sum(1 for gg in range(1, n + 1) if (gg, d) in cells) > 1:
           cells.pop((g, d), None)
+  if share[1] == 0 and vtol[1] == 0 and rng.random() < 0.12:
+    # series whose level dwarfs their variation (level / spread ~ 1e4..1e5); only without share / volume constraints,
+    # whose cross-multiplications would leave TLC's 32-bit integers
+    for g in range(1, n + 1):
+      off = int(150000 * (1 + 0.37 * g))
+      for d in range(n_dates):
+        if (g, d) in cells:
+          cells[(g, d)] += off
   inst = {'id': iid, 'family': family, 'n': n, 'n_dates': n_dates, 'cells': cells, 'elig': elig,
           'default_elig': default_elig, 'par': p, 'tr': tr, 'cr': cr, 'gtol': gtol, 'vtol': vtol, 'share': share,
           'nmax': nmax, 'want_budget': want_budget, 'budget': None,
